@@ -110,6 +110,24 @@ func syntaxAgreement(c *Ctx, an1, bn1 string) {
 							if sc.Parent() == nil {
 								out["call:"+norm(an.CalleeOf(x).FullName())]++
 							}
+						case *ssa.MakeClosure:
+							// a method value `ec.helper` stored where the other layout stores a literal that calls helper(ctx, ec, …):
+							// a reference to the same generated function
+							if w, ok := x.Fn.(*ssa.Function); ok && strings.HasPrefix(w.Synthetic, "bound method wrapper") {
+								if obj, ok := w.Object().(*types.Func); ok {
+									if sc := c.W.Prog.FuncValue(obj); sc != nil && sc.Pkg == g.SSA {
+										nm := sc.Name()
+										if sc.Signature.Recv() != nil {
+											nm = types.TypeString(sc.Signature.Recv().Type(), func(*types.Package) string { return "" }) + "." + nm
+										}
+										if other[norm(nm)] == nil {
+											walk(sc, depth+1)
+										} else {
+											out["gen:"+norm(nm)]++
+										}
+									}
+								}
+							}
 						case *ssa.FieldAddr:
 							out["field:"+fieldNameOf(x)]++
 						case *ssa.Field:
